@@ -667,6 +667,10 @@ func (g *Gen) axiomatized(v *FnVC, f *SpecFunc) bool {
 
 // specFuncDefs emits the recursive / opaque spec functions visible to v.
 func (g *Gen) specFuncDefs(v *FnVC) string {
+	// render with a fixed counter base so that the text does not depend on when it is rendered
+	saved := freshCounter
+	freshCounter = 900000
+	defer func() { freshCounter = saved }()
 	var fs []*SpecFunc
 	seen := map[string]bool{}
 	add := func(m map[string]*SpecFunc) {
